@@ -332,12 +332,18 @@ def _reject_pseudo_header_fields(headers, hdr_validation_flags):
 
     for header in headers:
         if _custom_startswith(header[0], b':', u':'):
-            if header[0] in seen_pseudo_header_fields:
+            # The same field may be given once as bytes and once as text:
+            # on the wire that is still a duplicate.
+            name = header[0]
+            if not isinstance(name, bytes):
+                name = name.encode('utf-8')
+
+            if name in seen_pseudo_header_fields:
                 raise ProtocolError(
                     "Received duplicate pseudo-header field %s" % header[0]
                 )
 
-            seen_pseudo_header_fields.add(header[0])
+            seen_pseudo_header_fields.add(name)
 
             if seen_regular_header:
                 raise ProtocolError(
